@@ -208,6 +208,14 @@ def check_hess(case, ctx):
                 ini = lq['prod'] if rev else lq['react']
                 fin = lq['ts'] if act else (lq['react'] if rev else lq['prod'])
                 got = rxn.get_delta_q(rev=rev, act=act, ignore_q_elec=True, **kwargs)
+                if act:
+                    # the activation wrapper is the same ratio
+                    for zpe in (False, True):
+                        ga = rxn.get_q_act(rev=rev, ignore_q_elec=True, include_ZPE=zpe, **kwargs)
+                        gd = rxn.get_delta_q(rev=rev, act=True, ignore_q_elec=True, include_ZPE=zpe, **kwargs)
+                        if gd > 0 and math.isfinite(gd) and ga > 0 and math.isfinite(ga):
+                            ctx.close('C08.hess/act:q', math.log(ga), math.log(gd), rtol=1e-12, atol=1e-12,
+                                      detail='rev=%s include_ZPE=%s' % (rev, zpe))
                 if got > 0 and math.isfinite(got):
                     ctx.close('C08.hess/delta:q', math.log(got), fin - ini, rtol=1e-10,
                               atol=1e-9 * (abs(ini) + abs(fin)) + 1e-10, detail='rev=%s act=%s' % (rev, act))
